@@ -151,9 +151,12 @@ func Compile(input string, ops ...Option) (*vm.Program, error) {
 	}
 
 	// Patch operators before Optimize, as we may also mark it as ConstExpr.
-	compiler.PatchOperators(&tree.Node, config)
+	// The operand types are reliable only if the check succeeded.
+	if err == nil {
+		compiler.PatchOperators(&tree.Node, config)
+	}
 
-	if len(config.Visitors) >= 0 {
+	if len(config.Visitors) > 0 {
 		for _, v := range config.Visitors {
 			ast.Walk(&tree.Node, v)
 		}
@@ -161,6 +164,9 @@ func Compile(input string, ops ...Option) (*vm.Program, error) {
 		if err != nil {
 			return nil, err
 		}
+		// Operators the visitors introduced, or whose operands they
+		// repaired, are checked as overloaded: compile them as such.
+		compiler.PatchOperators(&tree.Node, config)
 	}
 
 	if config.Optimize {
